@@ -77,6 +77,11 @@ func ruleBinPairsBAI(c *Ctx, r *Rep, tier string) {
 		}
 		k1, ok1 := shrOf(bo.X, isBeg)
 		k2, ok2 := shrOf(bo.Y, isEndMinus1)
+		if !ok1 || !ok2 {
+			// an equality reads the same from either side
+			k1, ok1 = shrOf(bo.Y, isBeg)
+			k2, ok2 = shrOf(bo.X, isEndMinus1)
+		}
 		if !ok1 || !ok2 || k1 != k2 {
 			why += fmt.Sprintf(" a level test does not compare beg>>k with (end-1)>>k for the same k (%d vs %d);", k1, k2)
 			break
